@@ -26,3 +26,4 @@ from props import c03_ext_min as _MN3
 UNITS += _MN3.UNITS
 
 from props.c03_ext2 import UNITS as _U2; UNITS = UNITS + _U2
+from props.c03_ext3 import UNITS as _U3; UNITS = UNITS + _U3
